@@ -26,40 +26,71 @@ import common
 from common import Case, sx, parse_sx
 
 PROP = "C20"
-RULE = ("(perm) multisets of 2-4 requirement lines for 1-2 packages spread over 1-2 files, EVERY permutation of the lines "
-        "over the line slots (and the DESIGN witnesses); (hist) up to 4 requirements.txt files in selected and decoy "
-        "directories, up to 6 lines each for up to 4 packages drawn from: pinned valid (incl. version epochs such as 1!2.0), unpinned, pinned malformed, "
-        "comment / blank / padded lines, >= <= > < , forms, several ==, ~= != ===; random installed / recorded / index / "
+RULE = ("(perm) multisets of 2-4 requirement lines for 1-2 packages, EVERY permutation of the lines over the line slots of "
+        "1-2 files or - one line per file - of 2-4 files of different selected directories plus an empty and a comment-only "
+        "file (and the DESIGN / finding witnesses); (hist) up to 6 requirements.txt files in selected and decoy directories "
+        "(empty, comment-only, CRLF / CR line ends, no final newline), up to 6 lines each for up to 5 packages drawn from: "
+        "pinned valid (releases, epochs, pre / post / dev releases, local versions, the spellings packaging normalises, a "
+        "blank before the version), unpinned, pinned malformed, comment / blank / padded (space, tab, FF, VT) lines, >= <= > "
+        "< , forms, several ==, ~= != ===, and - rarely - other spellings of a package name (case, - _ .), extras, markers, "
+        "pip option lines, URLs, blanks around ==; random installed / recorded (also under another spelling) / index / "
         "allow_all_imports, 1-3 consecutive runs with external site changes and edited or unchanged files in between; "
-        "(combo) one package, all installed x recorded x required x allow_all combinations, run twice; (ver) all pairs of "
-        "the version pool against packaging.version.  Non-trivial = at least one line that parses; distinct by payload.")
+        "(combo) one package, all installed x recorded x required x allow_all x (index knows it | installer fails), three "
+        "runs with allow_all_imports toggled in the middle; (sweep) every odd line form alone / next to a pin x package "
+        "absent / host-installed / recorded, files with a byte-order mark / CRLF / CR / no final newline / empty / comments "
+        "only, one package required from all 8 selected directories; (ver) all pairs of the version pool against "
+        "packaging.version.  After every run the data handed to async_update_entry (what Home Assistant stores) is compared "
+        "with the in-memory entry.  Non-trivial = at least one line that parses; distinct by payload.")
 ASSUMPTIONS = [
     "packaging.version.Version order is a total preorder; on the generator's version pool it coincides with numVer "
-    "(checked pairwise by the `ver` cases)",
-    "importlib.metadata.version(name) returns the installed version, raises PackageNotFoundError when absent and "
-    "ValueError for an empty name (the fake site does the same)",
+    "(checked pairwise by the `ver` cases, ~5600 pairs)",
+    "importlib.metadata.version(name) looks the distribution up under its PEP 503 normal form, returns the installed version, "
+    "raises PackageNotFoundError when absent (also for a string that is not a distribution name) and ValueError for an "
+    "empty name (the fake site does the same)",
     "Home Assistant's async_process_requirements tries every requirement, keeps the ones that installed and raises "
     "RequirementsNotFound afterwards if one failed (homeassistant/requirements.py _install_requirements_if_missing); "
-    "a pinned requirement installs iff its version string is a version, an unpinned one iff the index knows it",
-    "glob order inside one directory is taken from the real run (the model is told the order, not the reason for it)",
-    "only ASCII blanks (space, tab) pad lines; names are plain identifiers or carry a ~=/!= specifier",
-    "versions are numeric releases with an optional epoch ('1!2.0'); pre/post/dev/local segments are outside the "
-    "generator and outside numVer",
+    "`name[extras]==v` installs `name` iff v is a version, `name[extras]` iff the index knows it, anything that is not a "
+    "distribution name (option, URL, marker, blanks) fails",
+    "config_entry.data is a read-only mapping (MappingProxyType as in Home Assistant); what is passed to "
+    "async_update_entry is what is stored",
+    "files are read in text mode with universal newlines (CRLF / CR / LF all end a line); the file listing order inside "
+    "one directory pattern is taken from the real run (the model is told the order, not the reason for it)",
+    "only ASCII blanks (space, tab, FF, VT) pad lines; a line that is not a plain name is expected to be IGNORED by the "
+    "oracle (the documented format is `name` or `name==version`), `p == 1.0` with blanks around == included",
+    "version strings are drawn from a fixed pool of PEP 440 forms (numVer parses exactly this grammar)",
 ]
 TRUSTED = ["tools/extract.py (REQUIREMENTS_PATHS, UNPINNED_VERSION)", "harness/run_C20.py (fake site, oracle, canonicalisation)",
            "modelled not verified: packaging.version, glob, importlib.metadata, Home Assistant's installer"]
 
 UNP = "_unpinned_version"
+BOM = "\ufeff"
 NAMES = ["p", "q", "r", "s"]
-VALID = ["1", "1.0", "1.0.0", "2.0", "1.5", "0.9", "10.0", "1.10", "1.9", "2", "01.0", "0", "0.0.1", "3.2.1",
-         "1!2.0", "0!1.5", "1!0.1", "2!0"]                      # with an epoch: a lone '!' is NOT a specifier
-INVALID = ["", "abc", "1..0", "1_0", "=1.0", "1.0;x", UNP, "1.x", "1!", "!1.0", "1!2!3"]
-SEL_DIRS = [[], ["apps", "a"], ["apps", "b"], ["modules", "m"], ["scripts", "s"]]
+# spellings of ONE package (PEP 503: case and runs of - _ . are insignificant); the first one is the normal form
+VARIANTS = {"my-pkg": ["my-pkg", "My_Pkg", "my.pkg", "MY-PKG", "my__pkg", "my-.pkg"], "p": ["p", "P"], "q2": ["q2", "Q2"]}
+CORE = ["1", "1.0", "1.0.0", "2.0", "1.5", "0.9", "10.0", "1.10", "1.9", "2", "01.0", "0", "0.0.1", "3.2.1",
+        "1!2.0", "0!1.5", "1!0.1", "2!0"]                       # with an epoch: a lone '!' is NOT a specifier
+# boundary values of PEP 440: pre / post / dev releases, local versions, the spellings packaging normalises
+EXT = ["1.0a1", "1.0b2", "1.0rc1", "1.0.dev3", "1.0.post1", "1.0a1.dev2", "1.0.post1.dev0", "1.0.dev0", "2.0.0rc2",
+       "1.0+abc", "1.0+abc.5", "1.0+5", "1.0+ubuntu.1", "1.0.0+local", "1.0rc1+b7", "1.0RC1", "1.0-alpha.1", "1.0c1",
+       "1.0pre1", "1.0-1", "1.0_post2", "1.0.r3", "v1.5", "V2", "1.0.post", "1.0a", "1.0.DEV3", "1!1.0rc1", "0.9.post9",
+       "1.5.dev1", "1.5a0", "2.0+ABC"]
+BLANKED = [" 1.0", "\t2.0", "  1.5", " 1.0rc1"]                 # a blank between == and the version (Version strips it)
+VALID = CORE + EXT
+LEGACY = ["2004d", "1.0-SNAPSHOT", "2.0.final"]       # version strings of real distributions that are not PEP 440
+INVALID = ["", "abc", "1..0", "1_0", "=1.0", "1.0;x", UNP, "1.x", "1!", "!1.0", "1!2!3",
+           "1.0+", "1.0+a+b", "1.0a1b2", "1.0-", "1.0 1", "1.0.post1.post2", "1.0+a..b", "1.0dev1x", "+abc", "a1.0"] + LEGACY
+SEL_DIRS = [[], ["apps", "a"], ["apps", "b"], ["modules", "m"], ["scripts", "s"], ["apps", "c"], ["modules", "n"],
+            ["scripts", "t"]]
 DECOY_DIRS = [["apps"], ["apps", "a", "sub"], ["other"], ["scripts", "s", "deep"], ["modules", ".hid"], ["modules"]]
+# lines that are NOT of the documented form `name` / `name==version`: pip options, URLs, extras, markers, inner blanks
+OPTION_LINES = ["-r other.txt", "--index-url https://example.invalid/simple", "-e .", "--no-binary :all:",
+                "-c constraints.txt", "--pre"]
+URL_LINES = ["https://example.invalid/pkg-1.0.tar.gz", "hg+https://example.invalid/x@v1.0", "./local/dir",
+             "file:///srv/x-1.0.whl"]
 
 from packaging.version import InvalidVersion, Version  # noqa: E402
 
-for _v in VALID:
+for _v in VALID + BLANKED:
     Version(_v)
 for _v in INVALID:
     try:
@@ -69,25 +100,51 @@ for _v in INVALID:
         pass
 
 
+def norm(name):
+    """PEP 503 normal form – how pip and importlib.metadata identify a distribution"""
+    return re.sub(r"[-_.]+", "-", name).lower()
+
+
+def req_dist(name):
+    """the distribution a requirement name refers to for the installer: `name` or `name[extras]`, else None"""
+    base, bracket, rest = name.partition("[")
+    if not re.fullmatch(r"[A-Za-z0-9._-]+", base) or (bracket and not rest.endswith("]")):
+        return None
+    return norm(base)
+
+
 # ------------------------------------------------------------------ generators
 def pad(rng, s):
     if rng.random() < 0.25:
-        s = rng.choice([" ", "  ", "\t", " \t"]) + s
+        s = rng.choice([" ", "  ", "\t", " \t", "\x0c", " \x0b"]) + s
     if rng.random() < 0.25:
-        s = s + rng.choice([" ", "  ", "\t"])
+        s = s + rng.choice([" ", "  ", "\t", "\x0c"])
     return s
 
 
-def gen_line(rng, names, bad=0.08):
+def spell(rng, n, variant):
+    if n in VARIANTS and rng.random() < variant:
+        return rng.choice(VARIANTS[n])
+    return n
+
+
+def gen_line(rng, names, bad=0.08, odd=0.0, variant=0.0):
     """`bad` = probability of a form that provoked one of the findings C20-F1..F4 before they were fixed (malformed /
-    empty / sentinel pin, ~=, !=, ===); all of them must simply be ignored now"""
-    n = rng.choice(names)
+    empty / sentinel pin, ~=, !=, ===); all of them must simply be ignored now.  `odd` = probability of a line that is
+    not of the documented form (extras, markers, pip options, URLs, blanks around ==); `variant` = probability that a
+    package with several spellings is not written in its normal form."""
+    n = spell(rng, rng.choice(names), variant)
     r = rng.random()
     v, w = rng.choice(VALID), rng.choice(VALID)
     if r < bad:
         s = rng.choice([f"{n}=={rng.choice(INVALID)}", f"{n}=={rng.choice(INVALID)}", f"{n}~={v}", f"{n}!={v}", f"{n}==={v}"])
+    elif r < bad + odd:
+        s = rng.choice([f"{n}[extra]=={v}", f"{n}[a,b]=={v}", f"{n}[extra]", f'{n}=={v}; python_version < "3.9"',
+                        f'{n}=={v} ; sys_platform == "linux"', f'{n}; python_version in "3.9 3.10"', f"{n}=={v};x",
+                        f"{n} == {v}", f"{n} =={v}", f"{n} @ https://example.invalid/{n}.whl",
+                        rng.choice(OPTION_LINES), rng.choice(URL_LINES)])
     elif r < 0.5:
-        s = f"{n}=={v}"
+        s = f"{n}=={rng.choice(BLANKED)}" if rng.random() < 0.04 else f"{n}=={v}"
     elif r < 0.68:
         s = n
     else:
@@ -96,28 +153,35 @@ def gen_line(rng, names, bad=0.08):
     if rng.random() < 0.15 and "#" not in s:
         # inline comments may contain anything, also the characters of the rejected specifiers
         s = s + rng.choice([" # note", "#x==1", "  # q==9", "  # keep in sync with a1, do not bump", " # needs >=2 <3",
-                            "#~=1.0 != 2", " # a==1==2"])
+                            "#~=1.0 != 2", " # a==1==2", " # form feed\x0cq==9", " # vt\x0bp==99"])
     return pad(rng, s)
 
 
 def rand_env(rng, names):
+    """site / index are keyed by the normal form of the name (that is what the environment knows); the record is keyed
+    by whatever spelling pyscript wrote"""
     site = {}
     rec = {}
     index = {}
     for n in names:
+        k = norm(n)
         if rng.random() < 0.5:
-            site[n] = rng.choice(VALID)
+            site[k] = rng.choice(CORE if rng.random() < 0.7 else EXT)
+            if rng.random() < 0.02:
+                site[k] = rng.choice(LEGACY)        # a distribution whose version is not PEP 440
         if rng.random() < 0.4:
             # recorded: same string as installed, an equal version, or something else
-            k = rng.random()
-            if n in site and k < 0.5:
-                rec[n] = site[n]
-            elif n in site and k < 0.7:
-                rec[n] = site[n] + ".0"
+            c = rng.random()
+            if k in site and c < 0.5:
+                rec[n] = site[k]
+            elif k in site and c < 0.7 and re.fullmatch(r"[0-9.!]+", site[k]):
+                rec[n] = site[k] + ".0"
             else:
                 rec[n] = rng.choice(VALID)
         if rng.random() < 0.85:
-            index[n] = rng.choice(VALID)
+            index[k] = rng.choice(CORE if rng.random() < 0.8 else EXT)
+            if rng.random() < 0.02:
+                index[k] = rng.choice(LEGACY)
     return site, index, rec
 
 
@@ -138,46 +202,90 @@ WITNESSES = [["p==abc", "p==1.0"], ["p==", "p"], ["p", "p==abc"], ["p==1.0", "p=
              ["p==_unpinned_version", "p"], ["p==abc"], ["p==", "q==1.0"], ["p===1.0", "p==0.9"],
              # fix 5d02a52: only the ~= and != operators are rejected, a version epoch is a pin like any other
              ["p==1!2.0"], ["p==1!2.0", "p==3.0"], ["p==1!2.0", "p", "p==10.0"], ["p==0!1.5", "p==1.5", "p==1!0.1"],
-             ["p!=1.0", "p==1!2.0", "p~=3.0"], ["p==1!", "p==1.0"]]
+             ["p!=1.0", "p==1!2.0", "p~=3.0"], ["p==1!", "p==1.0"],
+             # boundary values of PEP 440 (pre / post / dev / local, normalised spellings, blank before the version)
+             ["p==1.0rc1", "p==1.0"], ["p==1.0.dev3", "p==1.0a1", "p==1.0"], ["p==1.0.post1", "p==1.0", "p==1.0+abc"],
+             ["p==1.0+abc", "p==1.0+5", "p==1.0+abc.5"], ["p==1.0RC1", "p==1.0rc1", "p==1.0c1"], ["p==v1.5", "p==1.5", "p"],
+             ["p== 1.0", "p==1.0"], ["p==1.0-1", "p==1.0.post1", "p==1.0.post"], ["p==1.0.dev0", "p"],
+             ["p==1.0+", "p==1.0"], ["p==1.0a1b2", "p==0.9"], ["p==1!1.0rc1", "p==2.0", "p==1!1.0"],
+             ["P==1.0"], ["My_Pkg==1.5", "q==1.0"],
+             # witnesses of the open findings C20-F6 (a line that is not `name[==version]` is kept as a package name),
+             # C20-F7 (spellings of one package are separate rows)
+             ["p[extra]==1.0"], ["-r other.txt", "p==1.0"], ["p == 1.0", "p==2.0"], ["p @ https://example.invalid/p.whl"],
+             ["My_Pkg==1.0", "my-pkg==2.0"], ["p==1.0", "P==2.0"], ["my.pkg", "MY-PKG==1.0", "my-pkg==0.9"]]
+
+
+def file_fmt(rng, weird=0.25):
+    """how the file is written: line ending, final newline, (rarely, in dedicated cases) a byte-order mark"""
+    f = {}
+    if rng.random() < weird:
+        f["eol"] = rng.choice(["\r\n", "\r\n", "\r"])
+    if rng.random() < weird:
+        f["nofinalnl"] = True
+    return f
 
 
 def perm_cases(rng, multisets):
     out = []
     for g, lines in enumerate(multisets):
         k = len(lines)
+        spread = k <= 4 and rng.random() < 0.35        # one line per file: the same package in three or more files
         splits = [k] if rng.random() < 0.4 else [rng.randrange(0, k + 1)]
         seen = set()
-        site, index, rec = rand_env(rng, ["p", "q"])
+        names = ["p", "q"] + [n for n in ("my-pkg",) if any("pkg" in l.lower() for l in lines)]
+        site, index, rec = rand_env(rng, names)
+        dirs = rng.sample(SEL_DIRS, k) if spread else None
+        extra = []
+        if spread and rng.random() < 0.6:               # plus an empty file and a file with comments / blanks only
+            rest = [d for d in SEL_DIRS if d not in dirs]
+            extra = [{"dir": rest[0], "lines": []}, {"dir": rest[1], "lines": ["# only a comment", "", "   # p==9"]}]
+        fmt = [file_fmt(rng) for _ in range(k + 2)]
         for cut in splits:
             for perm in itertools.permutations(range(k)):
                 arr = tuple(lines[i] for i in perm)
                 if (cut, arr) in seen:
                     continue
                 seen.add((cut, arr))
-                files = [{"dir": [], "lines": list(arr[:cut])}, {"dir": ["apps", "a"], "lines": list(arr[cut:])}]
-                if rng.random() < 0.5:
-                    files.reverse()
-                files = [f for f in files if f["lines"]] or [{"dir": [], "lines": []}]
-                out.append(mk("perm", site, index, rec, [{"allow": True, "ext": [], "files": files}], group=g))
+                if spread:
+                    files = [dict({"dir": dirs[i], "lines": [arr[i]]}, **fmt[i]) for i in range(k)] + copy.deepcopy(extra)
+                else:
+                    files = [dict({"dir": [], "lines": list(arr[:cut])}, **fmt[0]),
+                             dict({"dir": ["apps", "a"], "lines": list(arr[cut:])}, **fmt[1])]
+                    if rng.random() < 0.5:
+                        files.reverse()
+                    files = [f for f in files if f["lines"]] or [{"dir": [], "lines": []}]
+                out.append(mk("perm", site, index, rec, [{"allow": True, "ext": [], "files": files}], group=g,
+                              tags=("spread",) if spread else ()))
     return out
 
 
-def gen_files(rng, names):
+def gen_files(rng, names, odd=0.02, variant=0.06):
     files = []
-    dirs = rng.sample(SEL_DIRS, rng.randrange(1, 5))
+    dirs = rng.sample(SEL_DIRS, rng.choice([1, 2, 3, 3, 4, 5, 6]))
     if rng.random() < 0.4:
         dirs += rng.sample(DECOY_DIRS, rng.randrange(1, 3))
     rng.shuffle(dirs)
     for d in dirs:
-        files.append({"dir": d, "lines": [gen_line(rng, names) for _ in range(rng.randrange(0, 7))]})
+        r = rng.random()
+        if r < 0.07:
+            lines = []                                                        # empty file
+        elif r < 0.14:
+            lines = rng.choice([["# just a comment"], ["", "  ", "#x==1"], ["# p==1.0", "#q"]])   # nothing but comments
+        else:
+            lines = [gen_line(rng, names, odd=odd, variant=variant) for _ in range(rng.randrange(1, 7))]
+        files.append(dict({"dir": d, "lines": lines}, **file_fmt(rng, 0.12)))
     return files
 
 
 def hist_case(rng):
     names = rng.sample(NAMES, rng.randrange(1, 5))
+    if rng.random() < 0.2:
+        names = names + ["my-pkg"]      # a package with several spellings
     if rng.random() < 0.04:
         names = names + ["zz"]          # a package the index never knows
     site, index, rec = rand_env(rng, [n for n in names if n != "zz"])
+    if "my-pkg" in rec and rng.random() < 0.3:
+        rec["My_Pkg"] = rec.pop("my-pkg")       # recorded under another spelling
     steps = []
     files = gen_files(rng, names)
     for i in range(rng.choice([1, 2, 2, 3])):
@@ -196,39 +304,91 @@ def hist_case(rng):
             else:
                 files = gen_files(rng, names)
             if rng.random() < 0.3:
-                n = rng.choice(names)
+                n = norm(rng.choice(names))
                 ext.append([n, rng.choice(VALID)] if rng.random() < 0.7 else [n, None])
         steps.append({"allow": rng.random() < 0.8, "ext": ext, "files": copy.deepcopy(files)})
     return mk("hist", site, index, rec, steps)
 
 
 def combo_cases():
+    """one package: installed x recorded x required x allow_all_imports x (index knows it | installer must fail), three
+    consecutive runs with allow_all_imports toggled in the middle one"""
     out = []
     for inst in (None, "1.0", "2.0"):
         for recd in (None, "1.0", "2.0", "1.0.0"):
             for req in (None, "p", "p==1.0", "p==2.0", "p==1"):
                 for allow in (False, True):
-                    site = {"p": inst} if inst else {}
-                    rec = {"p": recd} if recd else {}
-                    files = [{"dir": [], "lines": [req] if req else ["# nothing"]}]
-                    step = {"allow": allow, "ext": [], "files": files}
-                    out.append(mk("combo", site, {"p": "3.2.1"}, rec, [step, copy.deepcopy(step)]))
+                    for index in ({"p": "3.2.1"}, {}):
+                        if not index and req != "p":
+                            continue
+                        site = {"p": inst} if inst else {}
+                        rec = {"p": recd} if recd else {}
+                        files = [{"dir": [], "lines": [req] if req else ["# nothing"]}]
+                        steps = [{"allow": al, "ext": [], "files": copy.deepcopy(files)} for al in (allow, not allow, allow)]
+                        out.append(mk("combo", site, index, rec, steps))
+    return out
+
+
+ODD_FORMS = ["p[extra]==1.0", "p[extra]", "p[a,b]==1.0", 'p==1.0; python_version < "3.9"', 'p==1.0 ; sys_platform == "linux"',
+             'p; python_version in "3.9 3.10"', "p==1.0;x", "p == 1.0", "p ==1.0", "p== 1.0", "p @ https://example.invalid/p.whl",
+             "P==1.0", "P", "My_Pkg==1.0", "my.pkg"] + OPTION_LINES + URL_LINES
+
+
+def sweep_cases():
+    """every line form outside / at the edge of the documented `name[==version]`, alone and next to a plain pin, against
+    an environment where the package is absent / installed by the host / installed and recorded by pyscript; plus the
+    file-level boundary values (byte-order mark, CRLF / CR line ends, no final newline, empty and comment-only files)"""
+    out = []
+    for form in ODD_FORMS:
+        for other in ([], ["p==2.0"], ["my-pkg==2.0"]):
+            if other == ["my-pkg==2.0"] and "pkg" not in form.lower():
+                continue
+            for site, rec in (({}, {}), ({"p": "2.0", "my-pkg": "2.0"}, {}), ({"p": "2.0", "my-pkg": "2.0"}, {"p": "2.0", "my-pkg": "2.0"})):
+                files = [{"dir": [], "lines": [form]}] + ([{"dir": ["apps", "a"], "lines": other}] if other else [])
+                step = {"allow": True, "ext": [], "files": files}
+                out.append(mk("sweep", site, {"p": "3.2.1", "my-pkg": "3.2.1"}, rec, [step, copy.deepcopy(step)], tags=("odd-form",)))
+    for fmt in ({"bom": True}, {"bom": True, "eol": "\r\n"}, {"eol": "\r\n"}, {"eol": "\r"}, {"nofinalnl": True},
+                {"eol": "\r\n", "nofinalnl": True}):
+        for lines in (["p==1.0", "q"], ["# c", "p==1.0"], [], ["p==1.0"], ["", "p==1.5", "p==1.0 # x"]):
+            files = [dict({"dir": [], "lines": lines}, **fmt), {"dir": ["apps", "a"], "lines": ["p==0.9"]},
+                     {"dir": ["modules", "m"], "lines": []}, {"dir": ["scripts", "s"], "lines": ["# nothing here"]}]
+            step = {"allow": True, "ext": [], "files": files}
+            out.append(mk("sweep", {}, {"p": "3.2.1", "q": "1.0"}, {}, [step, copy.deepcopy(step)], tags=("file-format",)))
+    # a distribution whose installed version is not PEP 440 (finding C20-F9): recorded earlier / installed unpinned first
+    for leg in LEGACY:
+        for line in ("p==1.0", "p", "p==2.0 # bump"):
+            step = {"allow": True, "ext": [], "files": [{"dir": [], "lines": [line]}]}
+            out.append(mk("sweep", {"p": leg}, {"p": "1.0"}, {"p": leg}, [step, copy.deepcopy(step)], tags=("legacy-version",)))
+            out.append(mk("sweep", {"p": leg}, {"p": "1.0"}, {}, [step, copy.deepcopy(step)], tags=("legacy-version",)))
+        s1 = {"allow": True, "ext": [], "files": [{"dir": [], "lines": ["p"]}]}
+        s3 = {"allow": True, "ext": [], "files": [{"dir": [], "lines": ["p==1.0"]}]}
+        out.append(mk("sweep", {}, {"p": leg}, {}, [s1, copy.deepcopy(s1), s3], tags=("legacy-version",)))
+    # one package required from every selected directory
+    vs = ["1.0", "1.5", "1.10", "1.9", "1.0rc1", "2.0.dev1", "1.0+abc", "0!1.5"]
+    for shift in range(len(SEL_DIRS)):
+        files = [{"dir": d, "lines": ["p==" + vs[(i + shift) % len(vs)]] + (["p"] if i % 3 == 0 else [])}
+                 for i, d in enumerate(SEL_DIRS)]
+        out.append(mk("sweep", {}, {"p": "3.2.1"}, {}, [{"allow": True, "ext": [], "files": files}], tags=("many-files",)))
     return out
 
 
 def gen_cases(rng, tier, search):
-    n_multi, n_hist = (160, 2000) if tier == "quick" else (2000, 30000)
+    n_multi, n_hist = (260, 3600) if tier == "quick" else (2500, 40000)
     if search:
         n_multi, n_hist = n_multi * 3, n_hist * 3
     multisets = [list(w) for w in WITNESSES]
     for _ in range(n_multi):
         names = ["p"] if rng.random() < 0.7 else ["p", "q"]
-        multisets.append([gen_line(rng, names, bad=0.15).strip() if rng.random() < 0.7 else gen_line(rng, names, bad=0.15)
+        if rng.random() < 0.06:
+            names = ["my-pkg"]
+        kw = dict(bad=0.15, odd=0.02, variant=0.05)
+        multisets.append([gen_line(rng, names, **kw).strip() if rng.random() < 0.7 else gen_line(rng, names, **kw)
                           for _ in range(rng.choice([2, 3, 3, 4]))])
     cases = perm_cases(rng, multisets)
     cases += combo_cases()
+    cases += sweep_cases()
     cases += [hist_case(rng) for _ in range(n_hist)]
-    pool = VALID + INVALID[:4] + INVALID[-3:]
+    pool = VALID + BLANKED + INVALID
     for a in pool:
         for b in pool:
             cases.append(Case({"kind": "ver", "a": a, "b": b}, "C20 " + sx(["ver", a, b]), tags=("ver",)))
@@ -248,11 +408,13 @@ class FakeSite:
         self.calls = []
 
     def installed_version(self, name):
+        """importlib.metadata.version: the distribution is looked up under the normalised name"""
         from importlib.metadata import PackageNotFoundError
         if not name:
             raise ValueError("A distribution name is required.")
-        if name in self.site:
-            return self.site[name]
+        k = norm(name)
+        if k in self.site:
+            return self.site[k]
         raise PackageNotFoundError(name)
 
     async def process_requirements(self, hass, domain, reqs):
@@ -261,19 +423,38 @@ class FakeSite:
         failed = []
         for req in reqs:
             name, sep, ver = req.partition("==")
-            if sep:
+            dist = req_dist(name)
+            if dist is None:                # a pip option, a URL, a marker, a name with blanks: nothing it can install
+                failed.append(req)
+            elif sep:
                 try:
                     Version(ver)
                 except InvalidVersion:
                     failed.append(req)
                     continue
-                self.site[name] = ver
-            elif name in self.index:
-                self.site[name] = self.index[name]
+                self.site[dist] = ver
+            elif dist in self.index:
+                self.site[dist] = self.index[dist]
             else:
                 failed.append(req)
         if failed:
             raise RequirementsNotFound(domain, failed)
+
+
+def file_bytes(f):
+    """the bytes of one requirements.txt as the payload describes it"""
+    eol = f.get("eol", "\n")
+    text = eol.join(f["lines"]) + ("" if f.get("nofinalnl") or not f["lines"] else eol)
+    return (BOM if f.get("bom") else "").encode("utf-8") + text.encode("utf-8")
+
+
+def seen_lines(f):
+    """the lines `readlines()` hands to the code (text mode: universal newlines; the byte-order mark is NOT removed by
+    encoding="utf-8") – this is what the model is given; the oracle works on the lines as written"""
+    lines = list(f["lines"])
+    if f.get("bom"):
+        lines = [BOM + lines[0]] + lines[1:] if lines else [BOM]
+    return lines
 
 
 def _glob_rank(root, files):
@@ -299,12 +480,15 @@ async def _run_case(payload):
 
     fake = FakeSite(dict(map(tuple, payload["site"])), dict(map(tuple, payload["index"])))
     rec0 = dict(map(tuple, payload["rec"]))
-    entry = types.SimpleNamespace(data={CONF_INSTALLED_PACKAGES: dict(rec0)})
+    # like Home Assistant: entry.data is a read-only mapping; what async_update_entry is given is what gets stored
+    entry = types.SimpleNamespace(data=types.MappingProxyType({CONF_INSTALLED_PACKAGES: dict(rec0), "hass_is_global": True}))
+    stored = {"data": copy.deepcopy(dict(entry.data))}
     updates = []
 
     def update_entry(entry=None, data=None, **kw):
         updates.append(1)
-        entry.data = data
+        stored["data"] = copy.deepcopy(dict(data))
+        entry.data = types.MappingProxyType(dict(data))
 
     async def exec_job(fn, *args):
         return fn(*args)
@@ -330,17 +514,24 @@ async def _run_case(payload):
                 fake.site[n] = v
         site_before = dict(fake.site)
         rec_before = dict(entry.data.get(CONF_INSTALLED_PACKAGES, {}))
-        entry.data = dict(entry.data)
-        entry.data[CONF_ALLOW_ALL_IMPORTS] = st["allow"]
-        root = tempfile.mkdtemp(prefix="c20_")
+        # the user flips the option: Home Assistant stores it and hands out a new read-only mapping
+        newd = dict(entry.data)
+        newd[CONF_ALLOW_ALL_IMPORTS] = st["allow"]
+        entry.data = types.MappingProxyType(newd)
+        stored["data"] = copy.deepcopy(newd)
+        frozen_rec = copy.deepcopy(newd.get(CONF_INSTALLED_PACKAGES, {}))
+        root = _scratch_root()
+        written = []
         try:
             id_of = {}
             for i, f in enumerate(st["files"]):
                 d = os.path.join(root, *f["dir"])
-                os.makedirs(d, exist_ok=True)
+                if not os.path.isdir(d):
+                    os.makedirs(d, exist_ok=True)
                 path = os.path.join(d, "requirements.txt")
-                with open(path, "w", encoding="utf-8") as fp:
-                    fp.write("".join(l + "\n" for l in f["lines"]))
+                with open(path, "wb") as fp:
+                    fp.write(file_bytes(f))
+                written.append(path)
                 id_of[path] = i
             ranks = _glob_rank(root, st["files"])
             order = sorted(range(len(st["files"])), key=lambda i: (ranks[i], i))
@@ -364,16 +555,45 @@ async def _run_case(payload):
                    "E:" + exc if exc else "E-", ["W", [[k, v] for k, v in fake.site.items()]]]
             outs.append(out)
             step_lines.append([st["allow"], ["ext"] + [[n] if v is None else [n, v] for n, v in st["ext"]],
-                               ["files"] + [[i, st["files"][i]["dir"], st["files"][i]["lines"]] for i in order]])
+                               ["files"] + [[i, st["files"][i]["dir"], seen_lines(st["files"][i])] for i in order]])
             details.append({"table": {n: i["version"] for n, i in table.items()}, "args": args, "exc": exc,
                             "site_before": site_before, "site_after": dict(fake.site), "rec_before": rec_before,
                             "rec_after": rec_after, "updates": len(updates), "ncalls": len(fake.calls),
+                            "stored_rec": copy.deepcopy(stored["data"].get(CONF_INSTALLED_PACKAGES)),
+                            "stored_other": {k: v for k, v in stored["data"].items() if k != CONF_INSTALLED_PACKAGES},
+                            "entry_other": {k: v for k, v in dict(entry.data).items() if k != CONF_INSTALLED_PACKAGES},
+                            "old_rec_mutated": newd.get(CONF_INSTALLED_PACKAGES, {}) != frozen_rec,
                             "multi_src": sum(1 for r in t_rows if len(r[2]) > 1)})
         finally:
-            shutil.rmtree(root, ignore_errors=True)
+            for path in written:
+                try:
+                    os.unlink(path)
+                except OSError:
+                    pass
     line = "C20 " + sx(["run", ["site"] + payload["site"], ["index"] + payload["index"], ["rec"] + payload["rec"],
                         ["steps"] + step_lines])
     return "model=" + sx(outs), line, details
+
+
+_ROOT = []
+
+
+def _scratch_root():
+    """one scratch pyscript folder per process with every directory of the generator in it (removing and re-creating
+    directories for each of ~10^4 runs is what costs the time); only the requirements.txt files come and go.  Which file
+    of a directory pattern is read first is taken from the real listing (`_glob_rank`), the permutations of the lines
+    over the files are what varies."""
+    if not _ROOT:
+        root = tempfile.mkdtemp(prefix="c20_")
+        for d in SEL_DIRS + DECOY_DIRS:
+            os.makedirs(os.path.join(root, *d), exist_ok=True)
+        _ROOT.append(root)
+    return _ROOT[0]
+
+
+def _drop_root():
+    while _ROOT:
+        shutil.rmtree(_ROOT.pop(), ignore_errors=True)
 
 
 def run_impl(cases):
@@ -388,6 +608,7 @@ def run_impl(cases):
             c.payload["_details"] = det
     finally:
         loop.close()
+        _drop_root()
 
 
 def _ver_impl(a, b):
@@ -434,6 +655,8 @@ def _selected(d):
 
 
 def oracle_table(files):
+    """normalised package name -> selected version.  Works on the lines as written (a byte-order mark is not part of
+    the first line), identifies a package by its PEP 503 normal form"""
     best = {}
     for f in files:
         if not _selected(f["dir"]):
@@ -442,7 +665,7 @@ def oracle_table(files):
             m = _meaning(l)
             if not m:
                 continue
-            name, v = m
+            name, v = norm(m[0]), m[1]
             if v is None:
                 best.setdefault(name, UNP)
             elif best.get(name, UNP) == UNP or Version(best[name]) < Version(v):
@@ -451,7 +674,7 @@ def oracle_table(files):
 
 
 def veq(a, b):
-    if a == UNP or b == UNP:
+    if a == UNP or b == UNP or a == b:
         return a == b
     try:
         return Version(a) == Version(b)
@@ -459,41 +682,87 @@ def veq(a, b):
         return False
 
 
+def _is_version(v):
+    try:
+        Version(v)
+        return True
+    except InvalidVersion:
+        return False
+
+
 def _raw_lines(files, name):
-    return [l for f in files if _selected(f["dir"]) for l in f["lines"] if name in l]
+    return [l for f in files if _selected(f["dir"]) for l in f["lines"] if name.lower() in l.lower()]
 
 
 def table_reason(files, got, want):
+    """got: the code's table (raw name -> version); want: the oracle's (normalised name -> version)"""
+    by_norm = {}
     for p, v in got.items():
-        if p not in want or not veq(v, want[p]):
-            if any(ch in p for ch in "~!"):
-                return f"specifier-kept-as-name: line {p!r} with an unsupported specifier became an unpinned package of that name"
+        if any(ch in p for ch in "~!"):
+            return f"specifier-kept-as-name: line {p!r} with an unsupported specifier became an unpinned package of that name"
+        if p.startswith(BOM):
+            return (f"bom-first-line-kept: the byte-order mark of a requirements.txt became part of the first package name "
+                    f"{p!r} (the requirement itself is lost)")
+        if not NAME_RE.fullmatch(p) or "==" in p:
+            return (f"non-plain-name-kept: {p!r} is not a distribution name (extras / marker / pip option / URL / blanks) "
+                    f"but is kept as a package = {v!r}, looked up as not installed and handed to the installer")
+        by_norm.setdefault(norm(p), []).append(p)
+    for n, ps in by_norm.items():
+        if len(ps) > 1:
+            return (f"name-variants-not-merged: {ps!r} are spellings of one package {n!r} but are separate rows "
+                    f"{[got[p] for p in ps]!r} (expected one row = {want.get(n)!r})")
+    for p, v in got.items():
+        n = norm(p)
+        if n not in want or not veq(v, want[n]):
             if v != UNP:
                 try:
                     Version(v)
                 except InvalidVersion:
                     kind = "empty" if v == "" else "malformed"
                     return (f"invalid-pin-selected-{kind}: package {p!r} selected {v!r} which is not a version (expected "
-                            f"{want.get(p)!r}); lines {_raw_lines(files, p)!r}")
+                            f"{want.get(n)!r}); lines {_raw_lines(files, p)!r}")
             if v == UNP and any((p + "==" + UNP) in l for l in _raw_lines(files, p)) and \
                     not any(_meaning(l) == (p, None) for l in _raw_lines(files, p)):
                 return f"sentinel-pin-as-unpinned: package {p!r}: a pin to the sentinel string counts as an unpinned requirement"
-            if p not in want:
+            if n not in want:
                 return f"ignored-line-not-ignored: package {p!r} = {v!r} comes only from lines that must be ignored"
-            return f"not-highest-pin: package {p!r} selected {v!r}, highest pin is {want[p]!r}"
-    for p in want:
-        if p not in got:
-            return f"requirement-lost: package {p!r} (expected {want[p]!r}) missing from the table"
+            return f"not-highest-pin: package {p!r} selected {v!r}, highest pin is {want[n]!r}"
+    for n in want:
+        if n not in by_norm:
+            return f"requirement-lost: package {n!r} (expected {want[n]!r}) missing from the table"
     return None
 
 
 def step_reason(i, st, d, prev):
-    want = oracle_table(st["files"])
-    r = table_reason(st["files"], d["table"], want)
+    want_n = oracle_table(st["files"])
+    r = table_reason(st["files"], d["table"], want_n)
     if r:
         return r
+    # the table is clean: one row per package, plain names.  From here on `p` is the spelling the files use.
+    want = {p: want_n[norm(p)] for p in d["table"]}
     site, rec, allow = d["site_before"], d["rec_before"], st["allow"]
     args = d["args"]
+
+    def inst(p):
+        return site.get(norm(p))
+
+    def other_spelling(p):
+        """pyscript's record knows this package under another spelling: the code (raw text comparison) treats it as
+        unrecorded – part of finding C20-F7, not a new defect"""
+        return any(k != p and norm(k) == norm(p) for k in list(rec) + list(d["rec_after"]))
+
+    def blame(p, text):
+        return ("name-variants-not-merged: record spelled differently - " if other_spelling(p) else "") + text
+
+    # ---- what is stored in the config entry must be what the in-memory object says, nothing else may be lost
+    if d["stored_rec"] != d["rec_after"]:
+        return (f"stored-record-differs: config entry object says {d['rec_after']!r} but the data handed to "
+                f"async_update_entry / stored is {d['stored_rec']!r}")
+    if d["stored_other"] != d["entry_other"] or "hass_is_global" not in d["stored_other"] or \
+            d["stored_other"].get("allow_all_imports") != allow:
+        return f"config-entry-data-lost: other config entry data changed: stored {d['stored_other']!r}"
+    if d["old_rec_mutated"]:
+        return "old-record-mutated: the previous record dict was modified in place instead of storing a new one"
     if want and not allow:
         if args is not None:
             return f"installed-without-optin: installer called with {args!r} although allow_all_imports is off"
@@ -502,12 +771,18 @@ def step_reason(i, st, d, prev):
         if d["exc"]:
             return f"raised-{d['exc']}: install_requirements raised"
         return None
+    if d["exc"] and d["exc"] != "RequirementsNotFound":
+        if d["exc"] == "InvalidVersion":
+            bad = sorted(p for p in want if p in rec and inst(p) is not None and not (_is_version(rec[p]) and _is_version(inst(p))))
+            if bad:
+                return (f"raised-InvalidVersion-installed-not-pep440: install_requirements raised InvalidVersion: {bad!r} recorded "
+                        f"{[rec[p] for p in bad]!r} / installed {[inst(p) for p in bad]!r} is not a PEP 440 version")
+        return f"raised-{d['exc']}: install_requirements raised"
     expect = set()
     for p, v in want.items():
-        inst = site.get(p)
-        if inst is None:
+        if inst(p) is None:
             expect.add(p)
-        elif p in rec and veq(rec[p], inst) and v != UNP and not veq(v, inst):
+        elif p in rec and veq(rec[p], inst(p)) and v != UNP and not veq(v, inst(p)):
             expect.add(p)
     got = {}
     for a in args or []:
@@ -517,32 +792,39 @@ def step_reason(i, st, d, prev):
         return "installer-called-twice: more than one installer call in one run"
     for p in got:
         if p not in expect:
-            if p in site and p not in rec:
-                return f"foreign-package-touched: {p!r} is installed ({site[p]!r}) by something else but was passed to the installer"
-            if p in site and p in rec and not veq(rec[p], site[p]):
-                return f"externally-changed-package-touched: {p!r} recorded {rec[p]!r} but {site[p]!r} is installed; passed to the installer"
+            if inst(p) is not None and p not in rec:
+                return blame(p, f"foreign-package-touched: {p!r} is installed ({inst(p)!r}) by something else but was passed to the installer")
+            if inst(p) is not None and p in rec and not veq(rec[p], inst(p)):
+                return f"externally-changed-package-touched: {p!r} recorded {rec[p]!r} but {inst(p)!r} is installed; passed to the installer"
             return f"needless-reinstall: {p!r} passed to the installer although the required version is installed"
         if not veq(got[p], want[p]):
             return f"wrong-version-installed: {p!r} installer got {got[p]!r}, selected is {want[p]!r}"
     for p in expect:
         if p not in got:
-            return f"missing-install: {p!r} (required {want[p]!r}, installed {site.get(p)!r}, recorded {rec.get(p)!r}) not passed to the installer"
+            return f"missing-install: {p!r} (required {want[p]!r}, installed {inst(p)!r}, recorded {rec.get(p)!r}) not passed to the installer"
     after = d["site_after"]
     ra = d["rec_after"]
-    if d["exc"] and d["exc"] != "RequirementsNotFound":
-        return f"raised-{d['exc']}: install_requirements raised"
-    for p in after:
-        if after[p] != site.get(p):                  # pyscript (through the installer) put this version there
-            if p not in ra or not veq(ra[p], after[p]):
+    raw_of = {norm(p): p for p in want}
+    for k in after:
+        if after[k] != site.get(k):                  # pyscript (through the installer) put this version there
+            p = raw_of.get(k, k)
+            if p not in ra or not veq(ra[p], after[k]):
                 why = "after-installer-failure" if d["exc"] else "after-success"
-                return (f"installed-but-unrecorded-{why}: {p!r}=={after[p]!r} was installed in this run but the record says "
+                return (f"installed-but-unrecorded-{why}: {p!r}=={after[k]!r} was installed in this run but the record says "
                         f"{ra.get(p)!r}")
     for p in ra:
         if p not in got and (p not in rec or ra[p] != rec[p]):
             return f"record-spurious: {p!r}: record changed to {ra[p]!r} without an install"
     for p in rec:
-        if p not in ra and not (p in want and site.get(p) is not None and site[p] != rec[p]):
+        if p not in ra and not (p in want and inst(p) is not None and inst(p) != rec[p]):
             return f"record-dropped: {p!r} dropped from the record although it was not changed externally"
+    # a package that pyscript recorded under ANOTHER spelling is treated as foreign by the code: never updated
+    for p, v in want.items():
+        for k in rec:
+            if k != p and norm(k) == norm(p) and inst(p) is not None and veq(rec[k], inst(p)) and v != UNP \
+                    and not veq(v, inst(p)) and p not in got:
+                return (f"name-variants-not-merged: record spelled differently - {p!r} was installed by pyscript (recorded as "
+                        f"{k!r}) and is pinned to another version now, but is not updated")
     if prev is not None:
         pst, pd = prev
         if pst["files"] == st["files"] and not st["ext"] and pst["allow"] and allow and not pd["exc"]:
@@ -571,6 +853,8 @@ def verdict(c):
             return None
         sp = sp if isinstance(sp, list) else [sp]
         for st, tab in zip(c.payload["steps"], sp):
+            if any(f.get("bom") for f in st["files"]):
+                continue
             want = oracle_table(st["files"])
             got = {kv[0]: kv[1] for kv in tab} if isinstance(tab, list) else {}
             if set(got) != set(want) or any(not veq(got[p], want[p]) for p in want):
@@ -660,9 +944,16 @@ def extra_coverage(cases):
             for f in st["files"]:
                 for l in f["lines"]:
                     b = l.split("#", 1)[0].strip()
+                    ver = b.split("==", 1)[1] if "==" in b else ""
                     form = ("blank/comment" if not b else "multi==" if b.count("==") > 1 else
-                            "~=" if "~=" in b else "!=" if "!=" in b else "range" if re.search("[<>,]", b) else
-                            "epoch-pin" if "==" in b and "!" in b else "pin" if "==" in b else "unpinned")
+                            "~=" if "~=" in b else "!=" if "!=" in b else "range/marker" if re.search("[<>,]", b) else
+                            "option" if b.startswith("-") else "url" if "://" in b or b.startswith("./") else
+                            "extras" if "[" in b else "marker" if ";" in b else
+                            "blank-around-==" if "==" in b and b.split("==")[0] != b.split("==")[0].rstrip()
+                            else "pin-blank-before-version" if re.match(r"\s", ver) else
+                            "name-variant" if NAME_RE.fullmatch(b.split("==")[0]) and norm(b.split("==")[0]) != b.split("==")[0] else
+                            "epoch-pin" if "!" in ver else "local-pin" if "+" in ver else
+                            "pre/post/dev-pin" if re.search(r"[A-Za-z]|-", ver) else "pin" if "==" in b else "unpinned")
                     line_forms[form] = line_forms.get(form, 0) + 1
             if d["args"] is not None:
                 branches["install"] += 1
@@ -680,7 +971,42 @@ def extra_coverage(cases):
                 branches["rec_pop"] += 1
             if any(a and "==" not in a for a in (d["args"] or [])):
                 branches["unpinned_resolved"] += 1
-    return {"case_kinds": kinds, "line_forms": line_forms, "decision_branches": branches}
+    files = {"files": 0, "empty": 0, "comment_only": 0, "bom": 0, "crlf": 0, "cr": 0, "no_final_newline": 0,
+             "max_files_one_package": 0, "steps_with_3+_files_one_package": 0}
+    runs = {"steps": 0, "second_or_later_run": 0, "allow_toggled": 0, "record_equal_installed": 0,
+            "record_differs_from_installed": 0, "stored_updates": 0, "installer_failed": 0}
+    for c in cases:
+        if c.payload["kind"] == "ver":
+            continue
+        prev_allow = None
+        for i, (st, d) in enumerate(zip(c.payload["steps"], c.payload.get("_details", []))):
+            per_pkg = {}
+            for f in st["files"]:
+                files["files"] += 1
+                body = [l.split("#", 1)[0].strip() for l in f["lines"]]
+                files["empty"] += not f["lines"]
+                files["comment_only"] += bool(f["lines"]) and not any(body)
+                files["bom"] += bool(f.get("bom"))
+                files["crlf"] += f.get("eol") == "\r\n"
+                files["cr"] += f.get("eol") == "\r"
+                files["no_final_newline"] += bool(f.get("nofinalnl"))
+                for n in {norm(m[0]) for m in map(_meaning, f["lines"]) if m}:
+                    per_pkg[n] = per_pkg.get(n, 0) + (1 if _selected(f["dir"]) else 0)
+            mx = max(per_pkg.values(), default=0)
+            files["max_files_one_package"] = max(files["max_files_one_package"], mx)
+            files["steps_with_3+_files_one_package"] += mx >= 3
+            runs["steps"] += 1
+            runs["second_or_later_run"] += i > 0
+            runs["allow_toggled"] += prev_allow is not None and prev_allow != st["allow"]
+            prev_allow = st["allow"]
+            for p, v in d["rec_before"].items():
+                inst = d["site_before"].get(norm(p))
+                if inst is not None:
+                    runs["record_equal_installed" if veq(v, inst) else "record_differs_from_installed"] += 1
+            runs["stored_updates"] += d["updates"]
+            runs["installer_failed"] += d["exc"] == "RequirementsNotFound"
+    return {"case_kinds": kinds, "line_forms": line_forms, "decision_branches": branches, "file_boundaries": files,
+            "run_history": runs}
 
 
 def want_blocked(st, d):
